@@ -32,12 +32,14 @@ import (
 	"fmt"
 	"os"
 	"path/filepath"
+	"sort"
 	"strconv"
 	"strings"
 	"time"
 
 	"github.com/Ptt-official-app/go-pttbbs/bbs"
 	"github.com/Ptt-official-app/go-pttbbs/cache"
+	"github.com/Ptt-official-app/go-pttbbs/cmsys"
 	"github.com/Ptt-official-app/go-pttbbs/ptt"
 	"github.com/Ptt-official-app/go-pttbbs/ptttype"
 	"github.com/Ptt-official-app/go-pttbbs/types"
@@ -718,6 +720,347 @@ func doXpost(ws []string) {
 	judgeID(i, "designate:xref", "the reference in the cross-post header", bbs.ArticleID(ref), src)
 }
 
+
+// ---- which entry an id addresses ----------------------------------------------------------------------------------
+
+func cstrOf(b []byte) []byte {
+	if i := bytes.IndexByte(b, 0); i >= 0 {
+		return b[:i]
+	}
+	return b
+}
+
+// judgeLookup: P̂ for a lookup by id over an index holding `names` (in time order, one entry per time+suffix):
+// the id resolves to the entry whose name it encodes (creation time and suffix; a delete-marked entry counts
+// as the name it had), or to nothing.
+func judgeLookup(i int, key string, id bbs.ArticleID, names [][]byte, found int, what string) {
+	d := id.ToRaw()
+	want := -1
+	for k, n := range names {
+		var f ptttype.Filename_t
+		copy(f[:], n)
+		if bytes.Equal(cstrOf(f[2:]), cstrOf(d[2:])) {
+			want = k
+		}
+	}
+	switch {
+	case found >= len(names):
+		run.Fail(i, key, fmt.Sprintf("%s: id %q (%s) resolves to position %d of an index of %d", what, id, cstrOf(d[:]), found, len(names)))
+	case found >= 0 && found != want:
+		run.Fail(i, key, fmt.Sprintf("%s: id %q encodes %s and resolves to the entry %s (position %d): another article", what, id, cstrOf(d[:]), cstrOf(names[found]), found))
+	case found < 0 && want >= 0:
+		run.Fail(i, key+"-miss", fmt.Sprintf("%s: id %q encodes %s, which is entry %d of the index, and resolves to nothing", what, id, cstrOf(d[:]), want))
+	}
+	if found >= 0 && found == want {
+		n := names[found]
+		if !(n[0] == d[0] && n[1] == d[1]) && !(n[0] == '.' && n[1] == 'd') {
+			// Filename_t.Eq does not compare the first two bytes (so that a delete-marked entry is found under
+			// the id of its old name): the id of G.<t>.A.<s> therefore addresses the entry M.<t>.A.<s>.
+			typeLetterNotes++
+			if typeLetterNotes <= 3 {
+				run.Note(fmt.Sprintf("%s: id %q encodes %s and resolves to the entry %s (same time and suffix, other type letter)", what, id, cstrOf(d[:]), cstrOf(n)))
+			}
+		}
+	}
+}
+
+var typeLetterNotes int
+
+var lookupDir string
+
+// doLookup: `lookup <id> <names, 28 bytes each>` writes the names as a .DIR of its own and asks cmsys.GetRecord
+// (the lookup behind CreateComment / EditArticle / CrossPost) for the id.
+func doLookup(ws []string) {
+	line := strings.Join(ws, " ")
+	idb, ok1 := unhex(ws[1])
+	nb, ok2 := unhex(ws[2])
+	if !ok1 || !ok2 || len(nb)%ptttype.FNLEN != 0 {
+		emit(line, "bad-op", "bad-op", false)
+		return
+	}
+	var names [][]byte
+	var dir bytes.Buffer
+	for k := 0; k+ptttype.FNLEN <= len(nb); k += ptttype.FNLEN {
+		names = append(names, nb[k:k+ptttype.FNLEN])
+		h := &ptttype.FileHeaderRaw{}
+		copy(h.Filename[:], nb[k:k+ptttype.FNLEN])
+		copy(h.Owner[:], "SYSOP")
+		_ = binary.Write(&dir, binary.LittleEndian, h)
+	}
+	if lookupDir == "" {
+		lookupDir = env.Path("tmp", "c13d-lookup")
+		_ = os.MkdirAll(lookupDir, 0o755)
+	}
+	path := filepath.Join(lookupDir, ".DIR")
+	_ = os.WriteFile(path, dir.Bytes(), 0o644)
+	id := bbs.ArticleID(idb)
+	found := -1
+	out := hx.CallSync(func() string {
+		idx, fhdr, err := cmsys.GetRecord(path, id.ToFilename(), len(names))
+		if err != nil || fhdr == nil {
+			return "none"
+		}
+		found = int(idx) - 1
+		if found < 0 || found >= len(names) || !bytes.Equal(fhdr.Filename[:], names[found]) {
+			return fmt.Sprintf("%d:%s", found, hx.Hex(fhdr.Filename[:])) // position and header disagree
+		}
+		return strconv.Itoa(found)
+	})
+	label := "lookup:found"
+	if out == "none" {
+		label = "lookup:none"
+	}
+	i := emit(line, out, label, true)
+	if out == "PANIC" {
+		return
+	}
+	judgeLookup(i, "designate:lookup", id, names, found, "cmsys.GetRecord")
+}
+
+// ---- ids of names that are NOT in the index, through every entry point that takes an id --------------------------
+
+type snapshot map[string][]byte // "board/file" -> content
+
+func takeSnapshot() snapshot {
+	sn := snapshot{}
+	for n := range boards {
+		ents, _ := os.ReadDir(bpath(n))
+		for _, e := range ents {
+			info, err := e.Info()
+			if err != nil || !info.Mode().IsRegular() {
+				continue
+			}
+			if info.Size() == 0 {
+				sn[n+"/"+e.Name()] = []byte{}
+				continue
+			}
+			c, _ := os.ReadFile(bpath(n, e.Name()))
+			sn[n+"/"+e.Name()] = c
+		}
+	}
+	return sn
+}
+
+// changed: what differs between two snapshots (index files record by record).
+func changed(a, b snapshot) []string {
+	var out []string
+	for k, v := range b {
+		old, ok := a[k]
+		switch {
+		case !ok:
+			out = append(out, k+" (new)")
+		case !bytes.Equal(old, v):
+			if strings.HasSuffix(k, "/.DIR") {
+				for r := 0; r*recSz < len(v) || r*recSz < len(old); r++ {
+					x, y := cut(old, r*recSz, recSz), cut(v, r*recSz, recSz)
+					if !bytes.Equal(x, y) {
+						out = append(out, fmt.Sprintf("%s record %d (%s)", k, r, cstrOf(cut(y, 0, ptttype.FNLEN))))
+					}
+				}
+			} else {
+				out = append(out, k)
+			}
+		}
+	}
+	for k := range a {
+		if _, ok := b[k]; !ok {
+			out = append(out, k+" (removed)")
+		}
+	}
+	sort.Strings(out)
+	return out
+}
+
+func cut(b []byte, off, n int) []byte {
+	if off >= len(b) {
+		return nil
+	}
+	if off+n > len(b) {
+		return b[off:]
+	}
+	return b[off : off+n]
+}
+
+var epNames = []string{"getarticle", "comment", "edit", "crosspost", "delete", "cursor"}
+
+// doProbe: `probe <board> <k> <variant> <entry point>` derives from the k-th article posted in this history a name
+// that is NOT in the index (one second later / earlier with the same suffix, other type letter, one time digit or one
+// suffix digit changed, or the article's own name after its record was taken out of the index) and hands the id of
+// that name to an entry point. P̂: the entry point refuses, or acts on exactly the file the id decodes to: no other
+// file of any board and no index record changes, nothing is created elsewhere.
+// variant 6 is the article's own, present name (the entry points do act on an id that is in the index).
+func doProbe(ws []string) {
+	line := strings.Join(ws, " ")
+	bb, ok1 := unhex(ws[1])
+	k, ok2 := natTok(ws[2])
+	v, ok3 := natTok(ws[3])
+	ep, ok4 := natTok(ws[4])
+	b := boards[string(bb)]
+	if !ok1 || !ok2 || !ok3 || !ok4 || b == nil || v > 6 || ep >= len(epNames) || len(H.posts[b.name]) == 0 {
+		emit(line, "bad-op", "bad-op", false)
+		return
+	}
+	src := H.posts[b.name][k%len(H.posts[b.name])]
+	if len(src.name) != 18 {
+		emit(line, "ok", "probe:odd-name", false)
+		return
+	}
+	t, _ := strconv.ParseInt(src.name[2:12], 10, 64)
+	p, _ := strconv.ParseInt(src.name[15:18], 16, 32)
+	target := src.name
+	switch v {
+	case 0:
+		target = fmt.Sprintf("M.%010d.A.%03X", t+1, p)
+	case 1:
+		target = fmt.Sprintf("M.%010d.A.%03X", t-1, p)
+	case 2:
+		target = "G" + src.name[1:]
+	case 3:
+		target = fmt.Sprintf("M.%010d.A.%03X", t+[]int64{10, 100, 1000, 100000}[k%4], p)
+	case 4:
+		target = fmt.Sprintf("M.%010d.A.%03X", t, p^(1<<(4*uint(k%3))))
+	case 5:
+		// take the record out of the index (as an expiry run does); the file stays
+		ix := readIndex(b.name)
+		d, _ := os.ReadFile(bpath(b.name, ".DIR"))
+		for j, r := range ix {
+			if r.basename() == src.name {
+				d = append(append([]byte{}, d[:j*recSz]...), d[(j+1)*recSz:]...)
+				_ = os.WriteFile(bpath(b.name, ".DIR"), d, 0o644)
+				_ = cache.SetBTotal(ptttype.Bid(b.bid))
+				break
+			}
+		}
+	}
+	inIndex, live := false, false
+	for _, r := range readIndex(b.name) {
+		if len(r.basename()) == 18 && r.basename()[2:] == target[2:] {
+			inIndex = true
+			live = r.cname() == r.basename()
+		}
+	}
+	present := v == 6 || v == 2 // the G twin of a present M name has the entry's time and suffix: Eq finds that entry
+	if !present && (inIndex || (v != 5 && dirHas(b.name, target))) {
+		emit(line, "ok", "probe:name-is-present", false) // the derived name happens to exist: not this class
+		return
+	}
+	if present && !inIndex {
+		emit(line, "ok", "probe:removed-before", false)
+		return
+	}
+	if present && !live {
+		// a comment addressed to a delete-marked entry is retried for 5 s before it is refused (doAddRecommend
+		// sleeps between attempts on a file that is not there): a request to a deleted article is not this class
+		emit(line, "ok", "probe:deleted-entry", false)
+		return
+	}
+	fn := &ptttype.Filename_t{}
+	copy(fn[:], target)
+	id := bbs.ToArticleID(fn)
+	before := takeSnapshot()
+	tag := []byte(fmt.Sprintf("c13d-probe-%d-%016x", H.seq, run.R.U64()))
+	H.seq++
+	x := boards["EditExp"]
+	if b.name == "EditExp" {
+		x = boards["WhoAmI"]
+	}
+	out := hx.CallT(10*time.Second, func() string {
+		switch ep {
+		case 0:
+			_, _, _, _ = bbs.GetArticle("SYSOP", b.bboardID(), id, 0, false)
+		case 1:
+			_, _, _ = bbs.CreateComment("Kahou2", b.bboardID(), id, ptttype.COMMENT_TYPE_RECOMMEND, tag, "127.0.0.1")
+		case 2:
+			_, _, _, _, _, _ = bbs.EditArticle("SYSOP", b.bboardID(), id, []byte("test"), []byte("edited"), [][]byte{tag}, 0, 0, "127.0.0.1")
+		case 3:
+			_, _, _, _ = bbs.CrossPost("SYSOP", b.bboardID(), id, x.bboardID(), "127.0.0.1")
+		case 4:
+			_, _ = bbs.DeleteArticles("SYSOP", b.bboardID(), []bbs.ArticleID{id}, "127.0.0.1")
+		case 5:
+			_, _, _, _, _, _ = bbs.LoadGeneralArticles("SYSOP", b.bboardID(), fmt.Sprintf("%d@%s", t, id), 3, k%2 == 0)
+		}
+		return "ok"
+	})
+	label := "probe:absent:" + epNames[ep]
+	if present {
+		label = "probe:present:" + epNames[ep]
+	}
+	if v == 2 {
+		label = "probe:type-letter:" + epNames[ep]
+	}
+	i := emit(line, out, label, true)
+	if out != "ok" {
+		return
+	}
+	after := takeSnapshot()
+	ch := changed(before, after)
+	own := b.name + "/" + target
+	var foreign []string
+	acted := false
+	for _, c := range ch {
+		switch {
+		case c == own || c == own+" (new)":
+			acted = true
+		case present && strings.HasPrefix(c, b.name+"/.DIR record ") && strings.HasSuffix(c, "("+target+")"):
+			acted = true
+		case present && (ep == 3 || ep == 4):
+			acted = true // a cross-post / deletion of a present article legitimately touches other files
+		default:
+			foreign = append(foreign, c)
+		}
+	}
+	if v == 2 && len(ch) > 0 {
+		typeLetterNotes++
+		if typeLetterNotes <= 6 {
+			run.Note(fmt.Sprintf("%s with id %q (= %s/%s, a G name; the index holds %s) changed %s", epNames[ep], id, b.name, target, src.name, strings.Join(ch, ", ")))
+		}
+	}
+	if len(foreign) > 0 && !present {
+		run.Fail(i, "designate:absent-id:"+epNames[ep], fmt.Sprintf("%s with id %q (= %s/%s, %s) changed %s", epNames[ep], id, b.name, target,
+			map[bool]string{true: "in the index", false: "NOT in the index"}[present], strings.Join(foreign, ", ")))
+	}
+	if v == 6 && ep == 1 && !acted {
+		run.Fail(i, "designate:present-id:comment", fmt.Sprintf("a comment addressed to id %q (= %s/%s, in the index) did not reach that article", id, b.name, target))
+	}
+	// what the lookup itself answers on this board's index (when the index is in time order: C06's precondition)
+	if indexSorted(b.name) {
+		var names [][]byte
+		var cat []byte
+		for _, r := range readIndex(b.name) {
+			n := append([]byte{}, r.name[:]...)
+			names = append(names, n)
+			cat = append(cat, n...)
+		}
+		if len(names) > 0 && uniqueKeys(names) {
+			found := -1
+			o := hx.CallSync(func() string {
+				idx, fhdr, err := cmsys.GetRecord(bpath(b.name, ".DIR"), id.ToFilename(), len(names))
+				if err != nil || fhdr == nil {
+					return "none"
+				}
+				found = int(idx) - 1
+				return strconv.Itoa(found)
+			})
+			j := emit(fmt.Sprintf("lookup %s %s", hx.Hex([]byte(id)), hx.Hex(cat)), o, "lookup:board", true)
+			if o != "PANIC" {
+				judgeLookup(j, "designate:lookup", id, names, found, "cmsys.GetRecord on the index of "+b.name)
+			}
+		}
+	}
+}
+
+func uniqueKeys(names [][]byte) bool {
+	seen := map[string]bool{}
+	for _, n := range names {
+		k := string(cstrOf(n[2:]))
+		if seen[k] {
+			return false
+		}
+		seen[k] = true
+	}
+	return true
+}
+
 // ---- pure forms ---------------------------------------------------------------------------------------------------
 
 func doWebURL(ws []string) {
@@ -788,6 +1131,12 @@ func do(line string, replay bool) {
 	case ws[0] == "xpost" && len(ws) == 4:
 		doXpost(ws)
 		return
+	case ws[0] == "probe" && len(ws) == 5:
+		doProbe(ws)
+		return
+	case ws[0] == "lookup" && len(ws) == 3:
+		doLookup(ws)
+		return
 	case ws[0] == "weburl" && len(ws) == 3:
 		doWebURL(ws)
 		return
@@ -804,6 +1153,67 @@ func name(ty string, t uint64, p int) []byte {
 	return []byte(fmt.Sprintf("%s%010d.A.%03X", ty, t, p))
 }
 
+// lookupStream: cmsys.GetRecord on constructed indexes (1..6 entries in time order, one entry per time+suffix, some
+// delete-marked) for the ids of every name of a small pool: present ones, and absent ones that share the suffix /
+// the second with a present entry or differ from it in one field.
+func lookupStream(r *hx.Rand) {
+	do(resetLine(false), false)
+	n := 150
+	if run.Thorough() {
+		n = 4000
+	}
+	for c := 0; c < n; c++ {
+		t0 := uint64(1000000000 + r.U64()%1147483000)
+		if c == 0 {
+			t0 = 1607203395
+		}
+		times := []uint64{t0, t0 + 1, t0 + 2, t0 + 10, t0 + 1000}
+		sufs := []int{0x00D, 0x00E, 0x10D}
+		type key struct {
+			t uint64
+			p int
+		}
+		var pool []key
+		for _, t := range times {
+			for _, p := range sufs {
+				pool = append(pool, key{t, p})
+			}
+		}
+		size := 1 + r.Intn(6)
+		if c < 3 {
+			size = 1 + c
+		}
+		picked := map[int]bool{}
+		for len(picked) < size {
+			picked[r.Intn(len(pool))] = true
+		}
+		if c == 0 {
+			picked = map[int]bool{0: true}
+		}
+		var cat []byte
+		for k := range pool { // pool order is time order
+			if !picked[k] {
+				continue
+			}
+			var f ptttype.Filename_t
+			copy(f[:], name([]string{"M.", "M.", "M.", ".d", "G."}[r.Intn(5)], pool[k].t, pool[k].p))
+			cat = append(cat, f[:]...)
+		}
+		for k := range pool {
+			if size > 2 && r.Intn(3) > 0 && !picked[k] {
+				continue
+			}
+			for _, ty := range []string{"M.", "G."} {
+				var f ptttype.Filename_t
+				copy(f[:], name(ty, pool[k].t, pool[k].p))
+				do(fmt.Sprintf("lookup %s %s", hx.Hex([]byte(bbs.ToArticleID(&f))), hx.Hex(cat)), false)
+			}
+		}
+		do(fmt.Sprintf("lookup %s %s", hx.Hex(r.Bytes(r.Intn(10), nil)), hx.Hex(cat)), false) // arbitrary client text
+	}
+	do("lookup 00 0000", false)
+}
+
 func generate() {
 	r := run.R
 	nHist, nGrid := 40, 400
@@ -816,6 +1226,16 @@ func generate() {
 		do(fmt.Sprintf("post %s %s 0", hb("WhoAmI"), hb("SYSOP")), false)
 		do("list "+hb("WhoAmI"), false)
 	}
+	// ids of absent names next to a present entry, every variant x every entry point, on a two-article board
+	for v := 0; v <= 6; v++ {
+		do(resetLine(false), false)
+		do(fmt.Sprintf("post %s %s 0", hb("WhoAmI"), hb("SYSOP")), false)
+		do(fmt.Sprintf("post %s %s 1", hb("WhoAmI"), hb("CodingMan")), false)
+		for ep := range epNames {
+			do(fmt.Sprintf("probe %s %d %d %d", hb("WhoAmI"), ep%2, v, ep), false)
+		}
+	}
+	lookupStream(r)
 	for h := 0; h < nHist; h++ {
 		aid := h%2 == 1
 		do(resetLine(aid), false)
@@ -826,7 +1246,7 @@ func generate() {
 			if r.Intn(3) > 0 {
 				b = postBoards[h%len(postBoards)] // mostly one board: many posts in the same second there
 			}
-			switch c := r.Intn(10); {
+			switch c := r.Intn(12); {
 			case c < 6 || len(H.posts[b]) == 0:
 				if crowded && r.Intn(2) == 0 {
 					do("crowd "+hb(b), false)
@@ -836,6 +1256,16 @@ func generate() {
 				do(fmt.Sprintf("del %s %d", hb(b), r.Intn(16)), false)
 			case c < 9:
 				do("list "+hb(b), false)
+			case c >= 10:
+				v := r.Intn(7)
+				if r.Intn(3) == 0 {
+					v = r.Intn(2) // the neighbouring second with the same suffix
+				}
+				ep := r.Intn(len(epNames))
+				if r.Intn(3) == 0 {
+					ep = 1
+				}
+				do(fmt.Sprintf("probe %s %d %d %d", hb(b), r.Intn(16), v, ep), false)
 			default:
 				do(fmt.Sprintf("xpost %s %d %s", hb(b), r.Intn(16), hb(postBoards[r.Intn(len(postBoards))])), false)
 			}
@@ -883,7 +1313,7 @@ func generate() {
 		}
 	}
 	// malformed ops
-	for _, l := range []string{"post", "post zz 00 1", "list", "url 00", "listid 00", "reset 2 00 00", "weburl 00", "entry 00 x", "xref"} {
+	for _, l := range []string{"post", "post zz 00 1", "list", "url 00", "listid 00", "reset 2 00 00", "weburl 00", "entry 00 x", "xref", "probe 00 1 1", "probe zz 1 1 1", "lookup zz 00"} {
 		do(l, false)
 	}
 }
